@@ -374,6 +374,9 @@ pub struct E2eCase {
 	/// the same signal is sent a second time 120 ms after the first
 	#[serde(default)]
 	pub twice: bool,
+	/// --debounce in ms (0 = option not given): the quit must not wait for the debounce window
+	#[serde(default)]
+	pub debounce_ms: u16,
 }
 
 fn run_e2e(c: &E2eCase) -> Outcome {
@@ -386,6 +389,10 @@ fn run_e2e(c: &E2eCase) -> Outcome {
 		.arg("--quiet")
 		.arg("--stop-timeout=300ms")
 		.arg(format!("--wrap-process={}", ["group", "session", "none"][(c.wrap % 3) as usize]));
+	if c.debounce_ms > 0 {
+		cmd.arg(format!("--debounce={}ms", c.debounce_ms));
+		o.label("long-debounce");
+	}
 	let other = if c.sigterm { "INT" } else { "TERM" };
 	match c.map % 5 {
 		1 => {
@@ -492,8 +499,8 @@ pub fn check(e: &Engine) {
 	e.require_label("quit", "armed-timer", 0.15);
 	e.explore(
 		"cli-signals",
-		LegOpts::realtime(e.tier.pick(20, 300), 5, "the real CLI supervising a helper, interrupted with SIGINT or SIGTERM: exits within the stop timeout (300 ms) + slack and leaves no process behind; command exits on / ignores the stop signal; wrap group / session / none; --map-signal absent, for an unrelated signal, or for the other one of INT/TERM (mapped to HUP, to itself, or discarded) - the signal that is sent is never the mapped one, so it must still quit; in 30% of the cases the signal is sent a second time 120 ms later, which must not delay the exit or leave anything behind"),
-		&|| (any::<bool>(), any::<bool>(), 0u8..3, 0u8..5, proptest::bool::weighted(0.3)).prop_map(|(sigterm, ignore, wrap, map, twice)| E2eCase { sigterm, ignore, wrap, map, twice }).boxed(),
+		LegOpts::realtime(e.tier.pick(20, 300), 5, "the real CLI supervising a helper, interrupted with SIGINT or SIGTERM: exits within the stop timeout (300 ms) + slack and leaves no process behind; command exits on / ignores the stop signal; wrap group / session / none; --map-signal absent, for an unrelated signal, or for the other one of INT/TERM (mapped to HUP, to itself, or discarded) - the signal that is sent is never the mapped one, so it must still quit; in a third of the cases with --debounce=6s, which the quit must not wait for; in 30% of the cases the signal is sent a second time 120 ms later, which must not delay the exit or leave anything behind"),
+		&|| (any::<bool>(), any::<bool>(), 0u8..3, 0u8..5, proptest::bool::weighted(0.3), prop_oneof![2 => Just(0u16), 1 => Just(6000u16)]).prop_map(|(sigterm, ignore, wrap, map, twice, debounce_ms)| E2eCase { sigterm, ignore, wrap, map, twice, debounce_ms }).boxed(),
 		&run_e2e,
 	);
 	let _ = Path::new("");
